@@ -265,6 +265,21 @@ example : served (daemonRun ([Step.reload [⟨nA, 1, 1⟩, ⟨nBA, 1, 2⟩] (fsO
   subst this
   exact ⟨rfl, rfl⟩
 
+example : ∃ c, daemonRun d12 = some c ∧ c.Inv := by
+  cases h : daemonRun d12 with
+  | none => exact absurd h (by decide +kernel)
+  | some c => exact ⟨c, rfl, C31_invariant d12 c h⟩
+
+/-- the three clauses of the rule on concrete views: newer valid file → new data; newer broken
+    file → own old data; never loaded and missing → SERVFAIL; untouched file → kept -/
+example : specZone (some (.good 10 1 (some 5))) ⟨1, .mtime 6, some 11⟩ = .good 11 1 (some 6) :=
+  C31_rule_loaded _ _ 11 (by decide) (by decide) rfl
+example : specZone (some (.good 10 1 (some 5))) ⟨1, .mtime 6, none⟩ = .good 10 1 (some 5) :=
+  C31_rule_failed _ _ (Or.inr rfl)
+example : specZone none ⟨2, .unreadable, none⟩ = .failed := C31_rule_failed _ _ (Or.inl rfl)
+example : specZone (some (.good 10 1 (some 5))) ⟨1, .mtime 5, some 10⟩ = .good 10 1 (some 5) :=
+  C31_rule_unchanged _ _ (by decide)
+
 /-- `MtimeSound` holds in the ordinary situation (file untouched) and `C31_rule_text` applies -/
 example : MtimeSound (some (.good 10 1 (some 5))) ⟨1, .mtime 5, some 10⟩ := by decide
 example : ¬ MtimeSound (some (.good 10 1 (some 5))) ⟨1, .mtime 4, some 11⟩ := by decide
